@@ -4,6 +4,7 @@
    property is observed by the sanitizer sweep of checks/C03.py. *)
 Require Import Arith Bool List Lia String.
 Require Import MPSV.Total.SkelDefs MPSV.Total.SkelProofs MPSV.Total.Accept MPSV.Total.AcceptProofs.
+Require Import MPSV.Total.SecExtDefs MPSV.Total.SecExtProofs MPSV.Total.SecExtAccept MPSV.Total.SecExtAcceptProofs.
 
 (* (1) Classic driver (mps_standard_mpsolve with mps_fsolve / mps_dsolve / mps_msolve and mps_improve): for every oracle
    the driver returns within Bound = (D + 2) * (max_pack * (max_it + 2) + 4) + L + 6 control steps, where
@@ -134,4 +135,101 @@ Example C03_trace_accepted :
 Proof. vm_compute. reflexivity. Qed.
 Example C03_trace_rejected_packet_in_wrong_place :
   fst (fst (fst (check_u caps_small cfg_ex false false (EPh SF :: EPh SM :: EK :: nil)))) = false.
+Proof. vm_compute. reflexivity. Qed.
+
+(* ====================================================================================================================
+   Round 6: the secular driver in more detail (Total/SecExtDefs.v, [xstep]): the set-up before the do/while with
+   mps_check_data's early exit, the preliminary Aberth packet, the floating point exception detection that switches to
+   the DPE phase instead of failing (after the preliminary packet; inside mps_secular_ga_fiterate), crude mode, the
+   initial regeneration and its DPE fallback, the phase of every iteration, switch_phase versus raise_precision, the
+   cleanup with mps_validate_inclusions and improve.  Oracle answers [xans] are arbitrary. *)
+
+(* (7) every terminal state has the error flag with a non-empty message, or roots for all with lastphase <> no_phase *)
+Theorem C03_secular_ext_ends_in_result_or_error :
+  forall (c : caps) (g : xcfg) (orc : nat -> xans) (k : nat),
+    let s := xrun xans xst (xstep c g) xterminal k orc 0 xinit in
+    xterminal s = true -> (exists m, xerr s = Some m /\ m <> ""%string) \/ (xroots s = true /\ xlast s <> NoPhase).
+Proof. exact secx_ends_in_result_or_error. Qed.
+Print Assumptions C03_secular_ext_ends_in_result_or_error.
+
+Definition xcfg_ex : xcfg :=
+  {| xgoal := Approximate; xin_prec := 333; xwp_min := 53; xavoid_mp := false; kind := KMonomial; start_phase := NoPhase;
+     crude := false; jacobi := false; can_improve := true |}.
+(* an exception in the preliminary float packet, then packets that never converge and never ask for more precision *)
+Definition xstubborn : xans :=
+  {| x_err := false; x_whichd := false; x_fpe := true; x_pre := false; x_back := false; x_regen1 := true; x_regen := true;
+     x_stop := false; x_best := false; x_stop2 := false; x_allapprox := false |}.
+Example C03_secular_ext_fpe_restart_then_packet_cap :
+  xsteps xans xst (xstep caps_small xcfg_ex) xterminal 60 (fun _ => xstubborn) 0 xinit = 10
+  /\ xerr (xrun xans xst (xstep caps_small xcfg_ex) xterminal 60 (fun _ => xstubborn) 0 xinit)
+     = Some "Maximum number of iteration passed. Aborting."%string
+  /\ xlast (xrun xans xst (xstep caps_small xcfg_ex) xterminal 60 (fun _ => xstubborn) 0 xinit) = DpeP.
+Proof. vm_compute. repeat split; reflexivity. Qed.
+
+(* (8) the hypothesis the code could enforce: a cap W on the working precision.  For every oracle whose run keeps
+   s->mpwp <= W (the model state; the code as it stands has no such cap, see (9)) the driver returns within
+   XBound = (log2 W - 6) * (max_pack + 2) + max_pack + L + 9 steps, L = doublings left in improve: every raise of the
+   precision uses up one of the log2 W - 6 doublings above MPS_SECULAR_STARTING_MP_PRECISION / 2 and only then resets
+   the packet counter.  Improve must have a cap too (input precision <> 0, or goal <> approximate, or a polynomial type
+   without Newton correction, for which mps_improve returns at once). *)
+Theorem C03_secular_ext_bounded_under_precision_cap :
+  forall (c : caps) (g : xcfg) (W : nat), 1 <= xwp_min g ->
+    (xin_prec g <> 0 \/ xgoal g <> Approximate \/ can_improve g = false) ->
+  forall orc : nat -> xans,
+    (forall j, xmpwp (xrun xans xst (xstep c g) xterminal j orc 0 xinit) <= W) ->
+    xterminal (xrun xans xst (xstep c g) xterminal (XBound c g W) orc 0 xinit) = true /\
+    xsteps xans xst (xstep c g) xterminal (XBound c g W) orc 0 xinit <= XBound c g W.
+Proof. exact secx_bounded_under_cap. Qed.
+Print Assumptions C03_secular_ext_bounded_under_precision_cap.
+
+Theorem C03_secular_ext_bound_closed_form :
+  forall c g W, XBound c g W =
+    (Nat.log2 W - 6) * (max_pack c + 2) + max_pack c + S (Nat.log2 (xin_prec g) - Nat.log2 (xwp_min g)) + 9.
+Proof. reflexivity. Qed.
+Print Assumptions C03_secular_ext_bound_closed_form.
+Example C03_secular_ext_bound_value : XBound caps_small xcfg_ex 1024 = 36.
+Proof. vm_compute. reflexivity. Qed.
+
+(* (9) as the code stands there is no cap: with the oracle that reports best_approx after every packet the do/while
+   never ends (any max_pack >= 1; not in crude mode, multiprecision not disabled), and the precision passes every W *)
+Theorem C03_secular_ext_unbounded_refuted :
+  forall (c : caps) (g : xcfg), 1 <= max_pack c -> xavoid_mp g = false -> crude g = false -> start_phase g <> MpP ->
+  forall k, xterminal (xrun xans xst (xstep c g) xterminal k (fun _ => xans_adv) 0 xinit) = false.
+Proof. exact secx_unbounded. Qed.
+Print Assumptions C03_secular_ext_unbounded_refuted.
+Example C03_secular_ext_adversary_precision_grows :
+  xmpwp (xrun xans xst (xstep caps_small xcfg_ex) xterminal 12 (fun _ => xans_adv) 0 xinit) = 8192.
+Proof. vm_compute. reflexivity. Qed.
+
+(* (10) once the do/while has been entered the phase is never lowered (float < dpe < mp), for every oracle: the
+   exception detection of fiterate only moves float -> dpe, raises only move to mp, nothing moves back *)
+Theorem C03_secular_ext_phase_never_lowered :
+  forall (c : caps) (g : xcfg) (orc : nat -> xans) (k t : nat) (s : xst),
+    (match xpc_ s with X_loop | X_cleanup | X_improve _ | X_return => True | _ => False end) ->
+    prk (xlast s) <= prk (xlast (xrun xans xst (xstep c g) xterminal k orc t s)).
+Proof. exact secx_phase_monotone. Qed.
+Print Assumptions C03_secular_ext_phase_never_lowered.
+
+(* (11) Tie: the extracted [check_x] is run on the event trace of every traced secular solve (harness/c03_solve.c).  An
+   accepted trace is, event for event, the trace of a run of [xstep] that ends in a terminal state with the same error
+   flag and, for a solve that returned roots, the same s->lastphase. *)
+Theorem C03_trace_accept_sound_secular_ext :
+  forall c g ferr lp evs n l, check_x c g ferr lp evs = (true, n, l) ->
+  exists answers : list xans, List.length answers = n /\
+    fst (xtrace answers c g xinit) = evs /\ xterminal (snd (xtrace answers c g xinit)) = true /\
+    xis_some (xerr (snd (xtrace answers c g xinit))) = ferr /\
+    (lp = NoPhase \/ lp = xlast (snd (xtrace answers c g xinit))).
+Proof. exact check_x_sound. Qed.
+Print Assumptions C03_trace_accept_sound_secular_ext.
+
+Example C03_ext_trace_accepted :
+  check_x caps_small xcfg_ex false MpP
+    (VCd false :: VPre :: VPreFpe :: VPre :: VBack :: VStarts :: VIt FloatP :: VItFpe :: VIt DpeP :: VSwitch :: VRaise ::
+     VIt MpP :: VStop :: VCleanup :: VImp 53 :: VImp 106 :: nil) = (true, 13, 0).
+Proof. vm_compute. reflexivity. Qed.
+Example C03_ext_trace_rejected_phase_lowered :
+  fst (fst (check_x caps_small xcfg_ex false MpP (VCd false :: VPre :: VStarts :: VIt MpP :: VIt FloatP :: VStop :: VCleanup :: nil))) = false.
+Proof. vm_compute. reflexivity. Qed.
+Example C03_ext_trace_error_exit_accepted :
+  check_x caps_small xcfg_ex true NoPhase (VCd false :: VPre :: VSwD :: VRegFail :: nil) = (true, 4, 0).
 Proof. vm_compute. reflexivity. Qed.
